@@ -581,6 +581,62 @@ pub proof fn thm_tr_untweaked_key_iff(p: ProjectivePoint, q: ProjectivePoint, m:
     }
 }
 
+// ---- composition: dealer / DKG packages + BIP-341 tweak (with or without a script-tree root) + sign_with_tweak + aggregate_with_tweak ----
+// the signers hold the UNTWEAKED key packages `kps` (consistent with the untweaked public package pk) and ran sign_with_tweak(.., root)
+pub open spec fn tr_signers_honest_tweaked(sp: SigningPackage<TR>, pk: PublicKeyPackage<TR>, root: Option<Seq<u8>>, shares: Map<Identifier<TR>, crate::round2::SignatureShare<TR>>,
+        kps: Map<Identifier<TR>, KeyPackage<TR>>, sns: Map<Identifier<TR>, crate::round1::SigningNonces<TR>>) -> bool {
+    forall|id: Identifier<TR>| #[trigger] sp.signing_commitments@.contains_key(id) ==> {
+        &&& kps[id].identifier == id && kps[id].verifying_key == pk.verifying_key && kps[id].min_signers <= sp.signing_commitments@.dom().len()
+        &&& sns[id].commitments == sp.signing_commitments@[id]
+        &&& sns[id].commitments.hiding.0.0 == g_mul(sns[id].hiding.0.0) && sns[id].commitments.binding.0.0 == g_mul(sns[id].binding.0.0)
+        &&& spec_sign_w::<TR>(sp, sns[id], tr_kp_tweak(kps[id], root)) == Ok::<crate::round2::SignatureShare<TR>, Error<TR>>(shares[id])     // = sign_with_tweak (its contract)
+    }
+}
+// C18, the whole chain: the aggregate of aggregate_with_tweak verifies under the BIP-341 OUTPUT KEY computed from the internal key P and the root
+//@serves C18
+pub proof fn thm_tr_tweaked_aggregate_bip340(res: Result<Signature<TR>, Error<TR>>, sp: SigningPackage<TR>, shares: BTreeMap<Identifier<TR>, crate::round2::SignatureShare<TR>>,
+        pk: PublicKeyPackage<TR>, root: Option<Seq<u8>>, pkt: PublicKeyPackage<TR>, kps: Map<Identifier<TR>, KeyPackage<TR>>, sns: Map<Identifier<TR>, crate::round1::SigningNonces<TR>>,
+        a: Seq<Scalar>, detect: bool, first: bool)
+    requires
+        tr_pkp_tweak_is(pk, root, pkt),                                       // pkt = pk.tweak(root)
+        agg_result_is_w::<TR>(res, sp, shares, pkt, detect, first),           // what aggregate_with_tweak guarantees (its contract, t = pkt)
+        tr_pkp_realisable(pkt),
+        agg_pre_guard_err::<TR>(sp, shares@, pkt, detect) is None,
+        taproot_output_key(vk_pt(pk.verifying_key), root) != pt_id(), !items_have_identity::<TR>(sp_items::<TR>(sp)),
+        tr_R(sp, taproot_output_key(vk_pt(pk.verifying_key), root)) != pt_id(),
+        tr_signers_honest_tweaked(sp, pk, root, shares@, kps, sns),
+        // the UNTWEAKED key shares lie on a polynomial with constant term the internal secret (dealer: C06, key generation: C07)
+        on_poly::<TR>(sp.signing_commitments@.dom(), kp_secrets(sp.signing_commitments@.dom(), kps), a), vk_pt(pk.verifying_key) == g_mul(a[0]),
+    ensures
+        res is Ok, tr_sig_bytes(res->Ok_0).len() == 64,
+        bip340_verify(pt_x(taproot_output_key(vk_pt(pk.verifying_key), root)), sp.message@, tr_sig_bytes(res->Ok_0)),
+{
+    let p = vk_pt(pk.verifying_key); let t = bip341_tweak(pt_x(p), root); let q = taproot_output_key(p, root);
+    let dom = sp.signing_commitments@.dom();
+    let kpts = Map::new(dom, |id: Identifier<TR>| tr_kp_tweak(kps[id], root));
+    let sk = kp_secrets(dom, kps);
+    thm_tr_tweak_keeps_sharing(dom, p, sk, a, root);
+    let at = tweaked_coeffs(p, a, t);
+    assert(kp_secrets(dom, kpts) =~= Map::new(dom, |id: Identifier<TR>| sc_add(even_sc(p, sk[id]), t))) by {
+        assert forall|id: Identifier<TR>| dom.contains(id) implies #[trigger] kp_secrets(dom, kpts)[id] == sc_add(even_sc(p, sk[id]), t) by {
+            assert(sp.signing_commitments@.contains_key(id));
+            assert(kps[id].verifying_key == pk.verifying_key);
+        }
+    }
+    assert(pkt.verifying_key == mk_vk(q));
+    assert(tr_signers_honest(sp, pkt, shares@, kpts, sns)) by {
+        assert forall|id: Identifier<TR>| #[trigger] sp.signing_commitments@.contains_key(id) implies
+            kpts[id].identifier == id && kpts[id].verifying_key == pkt.verifying_key && kpts[id].min_signers <= sp.signing_commitments@.dom().len()
+            && sns[id].commitments == sp.signing_commitments@[id]
+            && sns[id].commitments.hiding.0.0 == g_mul(sns[id].hiding.0.0) && sns[id].commitments.binding.0.0 == g_mul(sns[id].binding.0.0)
+            && spec_sign_w::<TR>(sp, sns[id], kpts[id]) == Ok::<crate::round2::SignatureShare<TR>, Error<TR>>(shares@[id]) by {
+            assert(dom.contains(id));
+            assert(kps[id].verifying_key == pk.verifying_key);
+        }
+    }
+    thm_tr_aggregate_bip340(res, sp, shares, pkt, kpts, sns, at, detect, first);
+}
+
 // the premise of the world-generic aggregate contract holds for the Taproot suite whenever the even-Y package exists
 pub proof fn lemma_tr_keeps_ids(sp: SigningPackage<TR>, sh: BTreeMap<Identifier<TR>, crate::round2::SignatureShare<TR>>, pk: PublicKeyPackage<TR>)
     requires tr_pkp_realisable(pk)
